@@ -29,6 +29,7 @@ type tapeFile struct {
 	Expect   string         `json:"expect"`
 	Tapes    []struct {
 		Label string      `json:"label"`
+		Case  int         `json:"case"`
 		Tape  []TapeEntry `json:"tape"`
 	} `json:"tapes"`
 }
@@ -190,6 +191,7 @@ func Replay(t *testing.T) {
 	if len(tf.Tapes) > 0 {
 		for _, w := range tf.Tapes {
 			failures = nil
+			cur.Case = w.Case
 			if r := runOne(tf.Harness, w.Tape); r != nil {
 				fmt.Printf("REPLAY-PANIC witness=%s: %v\n", w.Label, r)
 				t.Fail()
